@@ -173,13 +173,31 @@ func gen(seed uint64, tier string) {
 		emit(geom.Polygon{ps[:n/3], ps, ps[:7]}, i+1)
 		emit(geom.GeometryCollection{geom.MultiLineString{ps[:5], ps}, geom.MultiPolygon{{ps}, {}}, geom.MultiPoint(ps)}, i)
 	}
-	if tier == "thorough" { // 16-bit count boundary: one round trip each (these lines are megabytes long)
-		for _, n := range []int{65535, 65536, 65537} {
+	{ // 16-bit count boundary: one round trip each (these lines are megabytes long); in the quick tier 65536 and
+		// 65537 only — and every OTHER count field (rings, Multi* members, collection members) at 65536/65537 with
+		// empty members, which costs a few bytes per member (own mutation q5: a count written through uint16)
+		big := []int{65536, 65537}
+		if tier == "thorough" {
+			big = []int{65535, 65536, 65537}
+		}
+		for i, n := range big {
 			ps := make([]geom.Point, n)
 			for j := range ps {
 				ps[j] = geom.Point{X: float64(j), Y: float64(j % 7)}
 			}
 			fmt.Fprintf(out, "rt N %s\n", vproto.GeomToks(geom.LineString(ps)))
+			o := []string{"X", "N"}[i%2]
+			fmt.Fprintf(out, "rt %s %s\n", o, vproto.GeomToks(geom.Polygon(make([]geom.Path, n))))
+			fmt.Fprintf(out, "rt %s %s\n", o, vproto.GeomToks(geom.MultiLineString(make([]geom.LineString, n))))
+			fmt.Fprintf(out, "rt %s %s\n", o, vproto.GeomToks(geom.MultiPolygon(make([]geom.Polygon, n))))
+			gc := make(geom.GeometryCollection, n)
+			for j := range gc {
+				gc[j] = geom.MultiPoint{}
+			}
+			fmt.Fprintf(out, "rt %s %s\n", o, vproto.GeomToks(gc))
+			if i == 0 {
+				fmt.Fprintf(out, "rt %s %s\n", o, vproto.GeomToks(geom.MultiPoint(ps)))
+			}
 		}
 	}
 	// size thresholds at exactly one nesting level: 63..65, 127..130 (a 2 KiB / 4 KiB scratch buffer holds
